@@ -250,8 +250,9 @@ def gen_parse_single_unbounded(loader, check, replay_on=True):
                 kinds.add("failure")
                 check.ob("parse_single#ensures.fail.no-trees", pi, pc, asts == [], detail=f"asts {asts!r}")
                 check.ob("parse_single#ensures.fail.error-name", pi, pc, isinstance(e, Obj) and e.cls is PE and e.fields.get("name") == exc)
-        check.ob("parse_single#loop.paths: step, failure-at-arbitrary-index and success are all explored", inst, [],
-                 kinds == {"step", "success", "failure"}, detail=str(kinds))
+        if not ex.undecided:
+            check.ob("parse_single#loop.paths: step, failure-at-arbitrary-index and success are all explored", inst, [],
+                     kinds == {"step", "success", "failure"}, detail=str(kinds))
 
 
 class InsnTable(NativeAbs):
@@ -363,7 +364,8 @@ def gen_parser_parse_unbounded(loader, check, replay_on=True):
             r = p.value
             check.ob("Parser.parse#ensures.one-entry-per-instruction-name", pi, p.ctx.pc,
                      isinstance(r, AbsAccDict) and bool(r.ghost.get("all")) and r.tail == [], detail=repr(getattr(r, "tail", r)))
-    check.ob("Parser.parse#loop.paths: step and exit explored", "instructions=any", [], kinds == {"step", "return"}, detail=str(kinds))
+    if not ex.undecided:
+        check.ob("Parser.parse#loop.paths: step and exit explored", "instructions=any", [], kinds == {"step", "return"}, detail=str(kinds))
 
 
 class PoolStub(NativeAbs):
@@ -504,8 +506,103 @@ def replay_parse_single(a):
         P.Lark = real
 
 
+def gen_state(loader, check, replay_on=True):
+    """parse_single / Parser.parse are functions of their argument: Parser.py keeps no module- or class-level mutable state,
+    no memoisation; and calling Parser.parse twice with the same name but different text returns the second text's result."""
+    import ast
+    m = loader.load(M_P)
+    bad = []
+    for node in ast.walk(m.tree):
+        if isinstance(node, ast.ClassDef):
+            for st in node.body:
+                if isinstance(st, (ast.Assign, ast.AnnAssign)) and st.value is not None and isinstance(
+                        st.value, (ast.Dict, ast.List, ast.Set, ast.Call, ast.DictComp, ast.ListComp)):
+                    tgt = st.targets[0] if isinstance(st, ast.Assign) else st.target
+                    bad.append(f"class-level {node.name}.{getattr(tgt, 'id', '?')} (line {st.lineno})")
+        if isinstance(node, ast.Global):
+            bad.append(f"global statement (line {node.lineno})")
+        if isinstance(node, ast.FunctionDef):
+            for d in node.decorator_list:
+                from pyvc.loader import _is_cache_decorator
+                if _is_cache_decorator(d):
+                    bad.append(f"memoised function {node.name}")
+    for node in m.tree.body:
+        if isinstance(node, (ast.Assign, ast.AnnAssign)) and node.value is not None and isinstance(node.value, (ast.Dict, ast.List, ast.Set)):
+            bad.append(f"module-level container (line {node.lineno})")
+    rp = ("c18.two_calls", lambda mdl: {}) if replay_on else None
+    check.ob("Parser#reads: no hidden module/class-level state or memoisation in Parser.py", "Parser.py", [], not bad, replay=rp, detail="; ".join(bad))
+    check.instances_declared += 1
+    check.instances_generated += 1
+    # two calls in one history
+    f = m.globals["Parser"].methods["parse"]
+    PI = m.globals["ParsedInsn"]
+    check.instances_declared += 1
+
+    def setup(it):
+        def ps_contract(it_, fn, args, kwargs):
+            b = args[0]
+            pin = Obj(PI)
+            pin.fields.update(name=b.fields["name"], behaviors=b.fields["behavior"], asts=[("T", b.fields["grammar"], x) for x in b.fields["behavior"]], exception=None)
+            return {b.fields["name"]: pin}
+        it.ctx.contracts[f"{M_P}.parse_single"] = ps_contract
+        it.ctx.contracts["tqdm.std.tqdm"] = tqdm_stub
+        it.ctx.with_hook = with_hook
+        return None
+
+    def run(it, st):
+        r1 = it.call(f, [{"n0": ["old text"]}], {})
+        r2 = it.call(f, [{"n0": ["new text"], "n1": ["other"]}], {})
+        return r1, r2
+    ex = explore(loader, setup, run)
+    check.absorb(ex, "Parser.parse twice")
+    if ex.paths:
+        check.instances_generated += 1
+    for i, p in enumerate(ex.paths):
+        pi = f"history: parse({{n0: old}}) then parse({{n0: new, n1}}) path={i}"
+        check.ob("Parser.parse#total", pi, p.ctx.pc, p.outcome == "return", detail="" if p.outcome == "return" else f"raises {p.value!r}")
+        if p.outcome == "return":
+            r1, r2 = p.value
+            ok = isinstance(r2, dict) and list(r2) == ["n0", "n1"] and r2["n0"].fields["behaviors"] == ["new text"] and r2["n0"].fields["asts"] == [("T", "GRAMMAR", "new text")]
+            check.ob("Parser.parse#second-call-depends-only-on-its-own-argument", pi, p.ctx.pc, ok, replay=rp,
+                     detail=f"second result for n0: {r2['n0'].fields if isinstance(r2, dict) and 'n0' in r2 else r2}")
+
+
+@replay.register("c18.two_calls")
+def replay_two_calls(a):
+    import rzilcompiler.Parser as P
+
+    class FakePool:
+        def __enter__(self):
+            return self
+
+        def __exit__(self, *x):
+            return False
+
+        def imap(self, f, xs):
+            return [f(x) for x in xs]
+
+    class FakeLark:
+        def __init__(self, grammar, **kw):
+            pass
+
+        def parse(self, text):
+            if "broken" in text:
+                raise ValueError("parse error")
+            return ("T", text)
+    real = (P.Pool, P.Lark, P.tqdm)
+    P.Pool, P.Lark, P.tqdm = FakePool, FakeLark, (lambda x, **kw: x)
+    try:
+        P.Parser.parse({"n0": ["old text"]})
+        r2 = P.Parser.parse({"n0": ["new broken text"], "n1": ["other"]})
+        pin = r2.get("n0")
+        bad = list(r2) != ["n0", "n1"] or pin.behaviors != ["new broken text"] or pin.exception is None or pin.asts != []
+        return bad, f"second Parser.parse call: keys {list(r2)}, n0.behaviors={pin.behaviors}, n0.asts={pin.asts}, n0.exception={getattr(pin.exception, 'name', None)}"
+    finally:
+        P.Pool, P.Lark, P.tqdm = real
+
+
 def gen_task(loader, check, what, replay_on=True):
-    {"parse_single": gen_parse_single, "parse": gen_parser_parse, "parse_single_unbounded": gen_parse_single_unbounded,
+    {"state": gen_state, "parse_single": gen_parse_single, "parse": gen_parser_parse, "parse_single_unbounded": gen_parse_single_unbounded,
      "parse_unbounded": gen_parser_parse_unbounded}[what](loader, check, replay_on)
 
 
@@ -514,6 +611,7 @@ def generate_reduced(loader, check):
     gen_parser_parse(loader, check, False, max_insns=2)
     gen_parse_single_unbounded(loader, check, False)
     gen_parser_parse_unbounded(loader, check, False)
+    gen_state(loader, check, False)
 
 
 def run(check: Check):
@@ -525,7 +623,7 @@ def run(check: Check):
     check.assume("unbounded: the number of behaviour parts and the number of instructions are symbolic; both loops are discharged by "
                  "fold invariants (base, preservation for an arbitrary element with the failure injected at an arbitrary index, "
                  "exit). Additionally every length 0..4 / 0..3 is enumerated concretely (these instances have native replay).")
-    check.run_parallel("contracts.c18", "gen_task", [{"what": w} for w in ("parse_single", "parse", "parse_single_unbounded", "parse_unbounded")],
+    check.run_parallel("contracts.c18", "gen_task", [{"what": w} for w in ("state", "parse_single", "parse", "parse_single_unbounded", "parse_unbounded")],
                        workers=WORKERS)
     run_mutants(check, MUTANTS, "contracts.c18", "generate_reduced")
     return check.finish(
